@@ -2312,6 +2312,281 @@ def push_down_new_base_methods(trees, stats):
     stats['pushed_down'] = stats.get('pushed_down', 0) + n
 
 
+def _note_struct_consts(trees):
+  from . import normalize
+  out = {}
+  for tree in trees.values():
+    for c in tree.body:
+      if isinstance(c, ast.ClassDef):
+        for st in c.body:
+          if (isinstance(st, ast.Assign) and len(st.targets) == 1 and isinstance(st.targets[0], ast.Name) and isinstance(st.value, ast.Call)
+              and ast.unparse(st.value.func).split('.')[-1] == 'Struct' and len(st.value.args) == 1 and isinstance(st.value.args[0], ast.Constant)
+              and isinstance(st.value.args[0].value, str)):
+            key = '%s.%s' % (c.name, st.targets[0].id)
+            out[key] = None if key in out else st.value.args[0].value
+  normalize.STRUCT_CONSTS.clear()
+  normalize.STRUCT_CONSTS.update(dict((k, v) for k, v in out.items() if v is not None))
+
+
+def _thin_wrappers(trees):
+  """Package classes that only hold what they are given: bases (object), __init__ = one `self._f = p` per parameter, plain methods that never
+  store an attribute of self.  -> {name: (rel, ClassDef, [fields in parameter order])}"""
+  found, dup = {}, set()
+  for rel, tree in trees.items():
+    for c in tree.body:
+      if not isinstance(c, ast.ClassDef) or c.decorator_list or c.keywords or any(ast.unparse(b_) != 'object' for b_ in c.bases):
+        continue
+      members = [m for m in c.body if not (isinstance(m, ast.Expr) and isinstance(m.value, ast.Constant))]
+      if not members or not all(isinstance(m, ast.FunctionDef) and not m.decorator_list for m in members):
+        continue
+      init = [m for m in members if m.name == '__init__']
+      if len(init) != 1:
+        continue
+      a = init[0].args
+      if a.vararg or a.kwarg or a.kwonlyargs or a.defaults or a.posonlyargs or len(a.args) < 2:
+        continue
+      ps = [x.arg for x in a.args[1:]]
+      fields = {}
+      ok = True
+      for st in init[0].body:
+        if isinstance(st, ast.Expr) and isinstance(st.value, ast.Constant):
+          continue
+        if (isinstance(st, ast.Assign) and len(st.targets) == 1 and isinstance(st.targets[0], ast.Attribute) and isinstance(st.targets[0].value, ast.Name)
+            and st.targets[0].value.id == a.args[0].arg and isinstance(st.value, ast.Name) and st.value.id in ps and st.value.id not in fields):
+          fields[st.value.id] = st.targets[0].attr
+        else:
+          ok = False
+      if not ok or sorted(fields) != sorted(ps):
+        continue
+      for m in members:
+        if m.name == '__init__':
+          continue
+        if m.name.startswith('__') or not m.args.args or any(isinstance(n, ast.Attribute) and isinstance(n.ctx, (ast.Store, ast.Del)) and isinstance(n.value, ast.Name)
+                                                             and n.value.id == m.args.args[0].arg for n in ast.walk(m)):
+          ok = False
+        if any(isinstance(n, (ast.Yield, ast.YieldFrom, ast.Await, ast.Global, ast.Nonlocal)) for n in ast.walk(m)):
+          ok = False
+      if not ok:
+        continue
+      if c.name in found:
+        dup.add(c.name)
+      found[c.name] = (rel, c, [fields[p_] for p_ in ps])
+  for d in dup:
+    found.pop(d, None)
+  return found
+
+
+def unwrap_thin_wrappers(trees, stats):
+  """`w = W(buf)` ... `w.M(a)` in a function whose reference version does not know the package class W (a thin wrapper, see _thin_wrappers), w being a
+  local that is only ever the receiver of W's methods (or handed on to a package function that uses its parameter in that way only):
+  the call becomes `_W__M(buf, a)`, a new module-level function holding W.M's body with the wrapped value in place of `self._f`.  The ordinary
+  helper inlining then puts the method bodies where they execute, so that the rules see the reads and writes themselves."""
+  b = load_baseline()
+  srcs = b.get('sources') or {}
+  W = _thin_wrappers(trees)
+  if not W or not srcs:
+    return
+  made = {}       # (rel, W, M) -> helper name
+
+  def helper_for(rel, wname, mname, depth=0):
+    key = (rel, wname, mname)
+    if key in made:
+      return made[key]
+    wrel, wc, fields = W[wname]
+    m = [x for x in wc.body if isinstance(x, ast.FunctionDef) and x.name == mname]
+    if len(m) != 1 or depth > 3:
+      return None
+    m = copy.deepcopy(m[0])
+    selfn = m.args.args[0].arg
+    fparams = ['w_%s' % f.strip('_') for f in fields]
+    taken = set(params_of(m)) | set(n for n, _ in local_defs_fp(m)[1])
+    if set(fparams) & taken:
+      return None
+    name = '_%s__%s' % (wname.strip('_'), mname.strip('_'))
+    made[key] = name          # (recursion between methods resolves to the same helper)
+    fail = [False]
+
+    class T(ast.NodeTransformer):
+      def visit_Call(self, n):
+        if isinstance(n.func, ast.Attribute) and isinstance(n.func.value, ast.Name) and n.func.value.id == selfn:
+          h2 = helper_for(rel, wname, n.func.attr, depth + 1)
+          if h2 is None:
+            fail[0] = True
+            return n
+          n.args = [self.visit(a_) for a_ in n.args]
+          for k in n.keywords:
+            k.value = self.visit(k.value)
+          return ast.copy_location(ast.Call(func=ast.Name(id=h2, ctx=ast.Load()), args=[ast.Name(id=fp, ctx=ast.Load()) for fp in fparams] + n.args,
+                                            keywords=n.keywords), n)
+        return self.generic_visit(n)
+
+      def visit_Attribute(self, n):
+        if isinstance(n.value, ast.Name) and n.value.id == selfn and n.attr in fields and isinstance(n.ctx, ast.Load):
+          return ast.copy_location(ast.Name(id=fparams[fields.index(n.attr)], ctx=ast.Load()), n)
+        return self.generic_visit(n)
+    m.body = [T().visit(st) for st in m.body]
+    if fail[0] or any(isinstance(n, ast.Name) and n.id == selfn for st in m.body for n in ast.walk(st)):
+      made.pop(key, None)
+      return None
+    m.name = name
+    m.args.args = [ast.arg(arg=fp) for fp in fparams] + m.args.args[1:]
+    tree = trees[rel]
+    k = max([i for i, st in enumerate(tree.body) if isinstance(st, (ast.Import, ast.ImportFrom))] + [-1]) + 1
+    tree.body.insert(k, m)
+    ast.fix_missing_locations(tree)
+    return name
+
+  def fsrc(rel, q):
+    return srcs.get(rel + '::' + q)
+
+  # candidate locals:  fn -> {w: (wname, stmt, block, [arg exprs])}
+  def wrapper_locals(fn):
+    out = {}
+    for blk in _blocks_of(fn):
+      for st in blk:
+        if (isinstance(st, ast.Assign) and len(st.targets) == 1 and isinstance(st.targets[0], ast.Name) and isinstance(st.value, ast.Call)
+            and isinstance(st.value.func, ast.Name) and st.value.func.id in W and not st.value.keywords
+            and len(st.value.args) == len(W[st.value.func.id][2]) and all(isinstance(a_, ast.Name) for a_ in st.value.args)):
+          w = st.targets[0].id
+          stores = [n for n in ast.walk(fn) if isinstance(n, ast.Name) and n.id == w and isinstance(n.ctx, (ast.Store, ast.Del))]
+          if len(stores) != 1 or w in params_of(fn):
+            continue
+          # the wrapped names keep their binding from here on
+          if any(isinstance(n, ast.Name) and n.id in [a_.id for a_ in st.value.args] and isinstance(n.ctx, (ast.Store, ast.Del))
+                 and (getattr(n, 'lineno', 0), getattr(n, 'col_offset', 0)) > (st.lineno, st.col_offset) for n in ast.walk(fn)):
+            continue
+          out[w] = (st.value.func.id, st, blk, st.value.args)
+    return out
+
+  funcs = []     # (rel, qualname, node, class node)
+  for rel, tree in trees.items():
+    for q, (node, cont, cls) in collect(tree).items():
+      funcs.append((rel, q, node, cls))
+  plans = []
+  for rel, q, fn, cls in funcs:
+    src = fsrc(rel, q)
+    if src is None:
+      continue
+    wl = dict((w, v) for w, v in wrapper_locals(fn).items() if not re.search(r'\b%s\b' % re.escape(v[0]), src))
+    if wl:
+      plans.append((rel, q, fn, cls, wl))
+  if not plans:
+    return
+  n_done = 0
+  for rel, q, fn, cls, wl in plans:
+    for w, (wname, wst, blk, wargs) in wl.items():
+      methods = set(m.name for m in W[wname][1].body if isinstance(m, ast.FunctionDef) and m.name != '__init__')
+      loads = [n for n in ast.walk(fn) if isinstance(n, ast.Name) and n.id == w and isinstance(n.ctx, ast.Load)]
+      recv, passed = [], []
+      ok = True
+      parents = {}
+      for p_ in ast.walk(fn):
+        for ch in ast.iter_child_nodes(p_):
+          parents[id(ch)] = p_
+      for n in loads:
+        par = parents.get(id(n))
+        gp = parents.get(id(par)) if par is not None else None
+        if isinstance(par, ast.Attribute) and par.attr in methods and isinstance(gp, ast.Call) and gp.func is par:
+          recv.append((n, par, gp))
+        elif isinstance(par, ast.Call) and any(a_ is n for a_ in par.args) and len(W[wname][2]) == 1:
+          passed.append((n, par))
+        else:
+          ok = False
+      if not ok:
+        continue
+      # handed-on wrappers: the callee's parameter must be used as a receiver of W's methods only
+      callee_edits = []
+      for n, call in passed:
+        k = [i for i, a_ in enumerate(call.args) if a_ is n][0]
+        f_ = call.func
+        target = None
+        if isinstance(f_, ast.Attribute) and isinstance(f_.value, ast.Name) and f_.value.id in ('self', 'cls') and cls is not None:
+          cands = [m for m in cls.body if isinstance(m, ast.FunctionDef) and m.name == f_.attr]
+          if len(cands) == 1:
+            m = cands[0]
+            off = 0 if any(ast.unparse(d) == 'staticmethod' for d in m.decorator_list) else 1
+            target = (m, k + off)
+        elif isinstance(f_, ast.Name):
+          cands = [m for m in trees[rel].body if isinstance(m, ast.FunctionDef) and m.name == f_.id]
+          if len(cands) == 1:
+            target = (cands[0], k)
+        if target is None or target[1] >= len(target[0].args.args) or any(isinstance(a_, ast.Starred) for a_ in call.args):
+          ok = False
+          break
+        g, gi = target
+        pname = g.args.args[gi].arg
+        gl = [x for x in ast.walk(g) if isinstance(x, ast.Name) and x.id == pname]
+        gpar = {}
+        for p_ in ast.walk(g):
+          for ch in ast.iter_child_nodes(p_):
+            gpar[id(ch)] = p_
+        for x in gl:
+          par = gpar.get(id(x))
+          gp = gpar.get(id(par)) if par is not None else None
+          if not (isinstance(x.ctx, ast.Load) and isinstance(par, ast.Attribute) and par.attr in methods and isinstance(gp, ast.Call) and gp.func is par):
+            ok = False
+        # every other call of that name in the package hands over a wrapper of the same class too (else the callee cannot change)
+        for rel2, q2, fn2, cls2 in funcs:
+          for c2 in ast.walk(fn2):
+            if isinstance(c2, ast.Call) and c2 is not call and ((isinstance(c2.func, ast.Attribute) and c2.func.attr == g.name) or (isinstance(c2.func, ast.Name) and c2.func.id == g.name)):
+              a2 = c2.args[k] if k < len(c2.args) else None
+              other = [pl[4] for pl in plans if pl[2] is fn2]
+              if not (isinstance(a2, ast.Name) and other and a2.id in other[0] and other[0][a2.id][0] == wname):
+                ok = False
+        if not ok:
+          break
+        callee_edits.append((g, pname, gpar))
+      if not ok:
+        continue
+      # rewrite
+      good = True
+      for n, par, call in recv:
+        h = helper_for(rel, wname, par.attr)
+        if h is None:
+          good = False
+          break
+      if not good:
+        continue
+      for n, par, call in recv:
+        h = helper_for(rel, wname, par.attr)
+        call.func = ast.copy_location(ast.Name(id=h, ctx=ast.Load()), par)
+        call.args = [copy.deepcopy(a_) for a_ in wargs] + call.args
+      for n, call in passed:
+        i = [j for j, a_ in enumerate(call.args) if a_ is n][0]
+        call.args[i] = copy.deepcopy(wargs[0])
+      for g, pname, gpar in callee_edits:
+        grel = rel
+        for x in [x for x in ast.walk(g) if isinstance(x, ast.Name) and x.id == pname and isinstance(x.ctx, ast.Load)]:
+          par = gpar.get(id(x))
+          gp = gpar.get(id(par)) if par is not None else None
+          if isinstance(par, ast.Attribute) and isinstance(gp, ast.Call) and gp.func is par and par.attr in methods:
+            h = helper_for(grel, wname, par.attr)
+            if h is None:
+              continue
+            gp.func = ast.copy_location(ast.Name(id=h, ctx=ast.Load()), par)
+            gp.args = [ast.Name(id=pname, ctx=ast.Load())] + gp.args
+      blk.remove(wst)
+      if not blk:
+        blk.append(ast.Pass())
+      n_done += 1
+    ast.fix_missing_locations(trees[rel])
+  if n_done:
+    stats['wrappers_unwrapped'] = stats.get('wrappers_unwrapped', 0) + n_done
+
+
+def _blocks_of(fn):
+  out = []
+  for n in ast.walk(fn):
+    for fld in ('body', 'orelse', 'finalbody'):
+      v = getattr(n, fld, None)
+      if isinstance(v, list) and v and isinstance(v[0], ast.stmt):
+        out.append(v)
+    if isinstance(n, ast.Try):
+      for h in n.handlers:
+        out.append(h.body)
+  return out
+
+
 def restore_package(trees, stats):
   """Before the per-module normalisation (on the raw trees)."""
   try:
@@ -2322,6 +2597,11 @@ def restore_package(trees, stats):
     _note_stable_attrs(trees)
   except Exception as e:
     stats['stable_error'] = repr(e)
+  try:
+    _note_struct_consts(trees)
+    unwrap_thin_wrappers(trees, stats)
+  except Exception as e:
+    stats['unwrap_error'] = repr(e)
   try:
     import_cross_module_helpers(trees, stats)
   except Exception as e:
